@@ -45,6 +45,11 @@ def atoms(test: ast.AST, positive: bool = True) -> List[str]:
         if op in (ast.Eq, ast.NotEq) and rt < lt:
             lt, rt = rt, lt
         return [f"{lt} {_SYM[op]} {rt}"]
+    # d.get(k, True) is "k is missing or d[k] is truthy": its negation is `k in d` and `not d[k]`
+    if isinstance(test, ast.Call) and isinstance(test.func, ast.Attribute) and test.func.attr == "get" and len(test.args) == 2 \
+            and isinstance(test.args[1], ast.Constant) and test.args[1].value is True and not test.keywords:
+        d, k = norm(test.func.value), norm(test.args[0])
+        return [f"({d}[{k}] or {k} not in {d})"] if positive else [f"{k} in {d}", f"not {d}[{k}]"]
     t = norm(test)
     return [t if positive else f"not {t}"]
 
